@@ -9,46 +9,46 @@ Reading aid.  `processAll reg opts plug` is the model of `Modules.Process()` on 
 loaded (sub)modules; its `errors` field is what Go returns (a canonical set), its `forest` holds
 one tree per (sub)module (`ToEntry(m)` after processing).  `plug` carries the stages that live in
 other layers (type resolution, identities, typedefs) and is universally quantified: nothing is
-assumed about them unless stated.  `NoErrors`, `KeysUnique`, `KindsConsistent`, `WFTree`,
-`NoPending` are the decidable tree predicates of Spec/Tree.lean; `ForestAll P f` says every tree
-of the forest satisfies `P`.
+assumed about them unless stated (`TypeResTotal`).  `NoErrors`, `KeysUnique`, `KindsConsistent`,
+`WFTree` (= `KeysUnique ∧ KindsConsistent`), `TypesPresent`, `ChoiceCases`, `NoPending` are the
+decidable tree predicates of Spec/Tree.lean, each of the form "this local condition holds at every
+node, rpc input and output included".
 
 What is not provable here by construction: parent pointers and object identity (the model's trees
-are values).  That half of the property is checked by the Go-side pointer walk of
-harness/cmd/corr-c04 on every explored input.
+are values: a copy is a copy).  That half of the property — `child.Parent == parent`, every
+`*Entry`, `*ListAttr`, `*RPCEntry` reached by exactly one path over all modules and the grouping
+cache — is checked by the Go-side pointer walk of harness/cmd/corr-c04 on every explored input.
 -/
 namespace Goyang.Props.C04
 open Goyang.Model Goyang.Spec.Tree
+
+/-! ### an empty error list means there were none -/
 
 /-- An empty canonical error list means there were no errors (canonicalisation sorts and
 de-duplicates; it never drops the last copy). -/
 theorem canonErrs_empty_iff (l : List Err) : canonErrs l = [] ↔ l = [] :=
   ⟨Lemmas.Tree.canonErrs_eq_nil l, fun h => by subst h; rfl⟩
 
-/-- "An empty error list from processing means there were none": when `Process` returns no
-errors, no node of any tree it leaves behind (rpc input and output included) carries a recorded
-error.  For every registry, option set and plugged-in type/identity stage. -/
-theorem process_clean_no_errors (reg : Registry) (opts : Opts) (plug : Plug)
-    (h : (processAll reg opts plug).errors = []) :
-    ∀ t ∈ (processAll reg opts plug).forest.trees, NoErrors t.2 :=
-  Lemmas.Tree.process_clean_no_errors reg opts plug h
-
 /-- The specification's `NoErrors` is exactly "the model's error walk (`checkErrors`, which after
 the repair visits rpc input and output) finds nothing". -/
 theorem noErrors_iff_walk_empty (e : Entry) : NoErrors e ↔ e.allErrors = [] :=
   Lemmas.Tree.noErrors_iff e
 
-/-- "No augment is left unapplied": when `Process` returns no errors, the pending-augment list
-(`Entry.Augments`) of every tree is empty in the state `Process` reaches before it applies the
-deviations (`Lemmas.Tree.preDev`: the `processAll` pipeline up to that point, named; deviations do
-not touch pending lists).  Reason: the last pass records an `augment-not-found` error on the root of
-every tree that keeps one, and a root error never disappears. -/
-theorem process_clean_no_pending (reg : Registry) (opts : Opts) (plug : Plug)
-    (h : (processAll reg opts plug).errors = []) : NoPending (Lemmas.Tree.preDev reg opts plug) :=
-  Lemmas.Tree.process_clean_no_pending reg opts plug h
+/-- "An empty error list from processing means there were none": when `Process` returns no
+errors, no node of any tree it leaves behind (rpc input and output included) carries a recorded
+error.  For every registry, option set and plugged-in type/identity stage.  (The deviation stage
+returns its errors instead of recording them; a deviation whose target prefix cannot be resolved
+records one on the tree and then fails, so it is returned as well.) -/
+theorem process_clean_no_errors (reg : Registry) (opts : Opts) (plug : Plug)
+    (h : (processAll reg opts plug).errors = []) :
+    ∀ t ∈ (processAll reg opts plug).forest.trees, NoErrors t.2 :=
+  Lemmas.Tree.process_clean_no_errors reg opts plug h
 
-/-- `Lemmas.Tree.preDev` really is the state inside `processAll`: the outcome is computed from it
-(definitional unfolding of `processAll` into its named stages). -/
+/-! ### no augment is left unapplied -/
+
+/-- `Lemmas.Tree.preDev` really is the state inside `processAll` before the deviations are
+applied: the outcome is computed from it (definitional unfolding of `processAll` into its named
+stages; the pending lists are not part of the `Outcome`, so they are exposed this way). -/
 theorem processAll_stages (reg : Registry) (opts : Opts) (plug : Plug) :
     processAll reg opts plug =
       if !(Lemmas.Tree.stage1Errs reg plug).isEmpty then
@@ -61,11 +61,108 @@ theorem processAll_stages (reg : Registry) (opts : Opts) (plug : Plug) :
         forest := (Lemmas.Tree.devStage reg opts plug (Lemmas.Tree.preDev reg opts plug).forest).1, reg := reg } :=
   Lemmas.Tree.processAll_eq reg opts plug
 
+/-- "No augment is left unapplied": when `Process` returns no errors, the pending-augment list
+(`Entry.Augments`) of every tree is empty.  Reason: every tree with pending augments exists and is
+still in the work list when the loop ends; the last pass records an `augment-not-found` error on
+the root of every tree that keeps one; and a root error never disappears. -/
+theorem process_clean_no_pending (reg : Registry) (opts : Opts) (plug : Plug)
+    (h : (processAll reg opts plug).errors = []) : NoPending (Lemmas.Tree.preDev reg opts plug) :=
+  Lemmas.Tree.process_clean_no_pending reg opts plug h
+
+/-! ### FixChoice -/
+
 /-- After `FixChoice`, every child of every choice node that carries no error of its own is a
-case (for every tree). -/
+case (for every tree whatsoever). -/
 theorem fixChoice_cases (e : Entry) : ChoiceCases (fixChoice e) := Lemmas.Tree.fixChoice_cases e
 
 /-- `FixChoice` is idempotent. -/
 theorem fixChoice_idem (e : Entry) : fixChoice (fixChoice e) = fixChoice e := Lemmas.Tree.fixChoice_idem e
+
+/-! ### ToEntry -/
+
+/-- `ToEntry` of any statement, from a fresh cache, for every fuel: if the resulting tree carries
+no error then the names of the children of every node are pairwise different (the directory case
+is a fold over the statement's fields; `add` and `merge` refuse a taken name with an error). -/
+theorem toEntry_keysUnique (env : Env) (fuel : Nat) (root : Mod) (scope : List Stmt) (n : Stmt)
+    (visiting : List NodeId) :
+    NoErrors (toEntry env fuel root scope n visiting {}).1 → KeysUnique (toEntry env fuel root scope n visiting {}).1 := by
+  intro hne
+  have := (Lemmas.Tree.toEntry_ok (Lemmas.Tree.closed_cond (Lemmas.Tree.localOK_wfq env)) fuel root scope n visiting {}
+    [] (Lemmas.Tree.stOK_empty _ _)).1 hne
+  exact Lemmas.Tree.everyNode_imp _ _ (fun x hx => by
+    simp only [Lemmas.Tree.wfq, Bool.and_eq_true] at hx; exact hx.1.1) _ this
+
+/-! ### the proper-tree half that a pure tree can express -/
+
+/-- **C04, value level.**  When `Process` returns no errors, every tree it leaves behind is a
+proper tree — sibling names pairwise different at every node, at most one rpc input and output;
+a node is of leaf kind exactly when it has no child map; only leaf-lists and lists carry list
+attributes; every child of a choice is a case — and carries no recorded error anywhere.  For every
+registry, option set and plugged-in type/identity stage; along the whole pipeline: `ToEntry` with
+`uses`, `include`, grouping cache; the augment loop with its lazily created rpc input/output; both
+`FixChoice` passes; the deviations with replacement and removal of nodes. -/
+theorem process_clean_wf (reg : Registry) (opts : Opts) (plug : Plug)
+    (h : (processAll reg opts plug).errors = []) :
+    ∀ t ∈ (processAll reg opts plug).forest.trees, WFTree t.2 ∧ NoErrors t.2 :=
+  Lemmas.Tree.process_clean_wf reg opts plug h
+
+/-- "Leaves and leaf-lists have a resolved type", relative to the plugged-in resolver: if the
+resolver reports an error whenever it yields no type, then after a clean `Process` every leaf-kind
+node whose source statement has a `type` substatement (the AST builder rejects a leaf or leaf-list
+without one) has a type. -/
+theorem process_clean_types (reg : Registry) (opts : Opts) (plug : Plug) (htot : TypeResTotal plug.tres)
+    (h : (processAll reg opts plug).errors = []) :
+    ∀ t ∈ (processAll reg opts plug).forest.trees, TypesPresent t.2 :=
+  Lemmas.Tree.process_clean_types reg opts plug htot h
+
+/-! ### the hypotheses are satisfiable (kernel-checked on concrete registries) -/
+
+namespace Ex
+
+def st (line : Nat) (kw arg : String) (subs : List Stmt := []) : Stmt := .mk kw true arg "x.yang" line 1 subs
+
+/-- `module a`: a grouping, a container that uses it, a choice with a shorthand member and a case. -/
+def modA : Stmt :=
+  st 1 "module" "a" [
+    st 2 "namespace" "urn:a", st 3 "prefix" "a",
+    st 4 "grouping" "g" [st 5 "leaf" "x" [st 6 "type" "string"]],
+    st 7 "container" "c" [
+      st 8 "uses" "g",
+      st 9 "choice" "ch" [
+        st 10 "leaf" "y" [st 11 "type" "string"],
+        st 12 "case" "k" [st 13 "leaf" "z" [st 14 "type" "string"]]]]]
+
+/-- `module b`: imports `a` and augments `/a:c`. -/
+def modB : Stmt :=
+  st 1 "module" "b" [
+    st 2 "namespace" "urn:b", st 3 "prefix" "b",
+    st 4 "import" "a" [st 5 "prefix" "a"],
+    st 6 "augment" "/a:c" [st 7 "leaf" "w" [st 8 "type" "string"]]]
+
+def reg1 : Registry := (Registry.loadAll [modA]).1
+def reg2 : Registry := (Registry.loadAll [modA, modB]).1
+
+def plug : Plug :=
+  { tres := { resolve := fun _ _ _ t => (some { dump := t.arg }, []) },
+    identityErrs := fun _ => [], typedefErrs := fun _ => [] }
+
+/-- The whole pipeline on `a` (uses, choice with a shorthand member): no errors, one tree, and the
+conclusions of the theorems hold of it (evaluated by the kernel, independently of the proofs). -/
+example : (processAll reg1 {} plug).errors = [] := by decide +kernel
+example : (processAll reg1 {} plug).forest.trees.length = 1 := by decide +kernel
+example : ∀ t ∈ (processAll reg1 {} plug).forest.trees, WFTree t.2 ∧ NoErrors t.2 ∧ TypesPresent t.2 := by
+  decide +kernel
+example : TypeResTotal plug.tres := fun _ _ _ _ _ => rfl
+
+/-- The two-module set with the augment: the first two stages are clean and the augment of `b` is
+pending (kernel-checked).  The rest of the pipeline on this set (`find` of `/a:c`) goes through
+`String.splitOn`, which the kernel does not evaluate on a string that starts with the separator;
+`#eval (processAll reg2 {} plug).errors` gives `[]` with the augment applied, and the
+correspondence run exercises such sets by the thousand. -/
+example : Lemmas.Tree.stage1Errs reg2 plug = [] ∧
+    Lemmas.Tree.forestErrs (Lemmas.Tree.forest0 reg2 {} plug) = [] ∧
+    (Lemmas.Tree.pending0 reg2 {} plug).map (fun p => (p.1, p.2.length)) = [(0, 0), (1, 1)] := by decide +kernel
+
+end Ex
 
 end Goyang.Props.C04
